@@ -22,7 +22,7 @@ PROPS = {
     "compiler_linker_flags": (X, Y),
     "compiler_shared_flags": (X, Y),
     "compiler_env_script": (X, Y),
-    "compiler_language": (X, Y),
+    "compiler_language": ("c", "cpp"),
     "okl/enabled": (False, True),
 }
 NAMES = list(PROPS)
@@ -78,12 +78,20 @@ def cfg_props(cfg, table):
 
 
 def effective(cfg, names):
-    """normalised tuple of effective inputs: unset okl/enabled == true"""
+    """normalised tuple of effective inputs.  unset okl/enabled == true; the effective language is
+    C++ whenever OKL is enabled or compiler_language is anything but "c" (unset == "cpp"), so an
+    implementation that keys on the effective language is not flagged."""
     e = list(cfg)
+    okl_on = True
     if "okl/enabled" in names:
         i = names.index("okl/enabled")
         if e[i] == 0:
             e[i] = 2
+        okl_on = (e[i] == 2)
+    if "compiler_language" in names:
+        j = names.index("compiler_language")
+        is_c = (e[j] == 1) and not okl_on
+        e[j] = 1 if is_c else 2
     return tuple(e)
 
 
